@@ -14,6 +14,9 @@ CHECKS = {
  "C07": dict(design="5/C07", technique="TLA+ IRMachine+Accfg spec; claims exported from the real infer_state_of checked as state invariant ClaimHolds/Threaded by TLC on every reached state",
    text="TLC runs the real accfg-trace-states output; whenever a state-typed SSA value becomes defined (every loop iteration, both branches, after zero-trip loops) the dictionary the real infer_state_of returns for it must be true of the machine's register file (ClaimHolds), every setup/launch must name the state that really precedes it (Threaded), and tracing must not change events. Inputs include stale/partial pre-existing threading and calls with/without effects annotation at any depth.",
    note="Bounded as C01. Claims about ids never defined in a run are vacuous (cannot be used)."),
+ "C17": dict(design="5/C17", technique="TLA+ IRMachine spec; TLC runs loop nests before/after the real loop-restructuring passes for all oracles; contract SameEffects",
+   text="TLC executes each loop nest and the output of the real pipeline-canonicalize-for / reuse-memref-allocs (3 pipelines) for every oracle (dynamic bounds/steps incl. zero-trip) and requires the same sequence of side-effecting operations with the same evaluated index/size operands; memrefs are observed as interned descriptors (alloc type+sizes, subview offsets/sizes/strides).",
+   note="Bounded: generated nests depth<=3; affine.min tile sizes are not interpreted (cases skipped, counted)."),
 }
 NA_REASON = "check not built yet in this round (planned: see DESIGN.md section 5); will be claimed once its TLA+ module and binding exist"
 def main():
